@@ -541,7 +541,7 @@ def rule_loop_exit(ctx):
     ctx.check(ok, pj.fq, "draining is the only early exit before the poll", "pop_next_job returns None for another reason before consulting the database", "if self.draining: return None", where=ctx.where_of(pj))
 
 
-RESOLVING = {"set_state", "mark_completed", "_reset_step_to_pending", "_finalize_failed_run", "_restart_if_declared_again"}
+RESOLVING = {"set_state", "mark_completed", "_reset_step_to_pending", "_finalize_failed_run", "_restart_if_declared_again", "_discard_check_if_declared_again"}
 
 
 def kwarg_of(call, name):
